@@ -33,6 +33,16 @@ type drawCell struct {
 	main  int
 	comb  []int
 	style StyleF
+	fill  bool // content last written by Fill (diagnostics only: named in the finding message)
+}
+
+// byFill: a note appended to a finding's message when the cell's content was stored by Fill; the judgement itself
+// never depends on it.
+func (c *drawCell) byFill() string {
+	if !c.fill {
+		return ""
+	}
+	return fmt.Sprintf(" [cell written by Fill(%d), a rune of width %d]", c.main, runewidth.RuneWidth(rune(c.main)))
 }
 
 type drawShadow struct {
@@ -85,11 +95,18 @@ func lockGuardSuffix() string {
 // variant (a replay): the oracle still runs, the model comparison is skipped.
 func splitLockGuard(tok string) (name string, stale bool) {
 	name, flag := tok, ""
-	if i := strings.Index(tok, "+lg"); i >= 0 {
-		name, flag = tok[:i]+tok[i+3:], "+lg"
+	if i := strings.Index(name, "+lg"); i >= 0 {
+		name, flag = name[:i]+name[i+3:], "+lg"
 	}
-	return name, flag != lockGuardSuffix()
+	if i := strings.Index(name, "+fz"); i >= 0 { // Fill variant, see fillZWSuffix in cb.go
+		name, flag = name[:i]+name[i+3:], flag+"+fz"
+	}
+	return name, flag != drawVariantSuffix()
 }
+
+// drawVariantSuffix: the flags the `draw` / `drawcp` / `modes` case lines carry after the entry name: `+lg` (locked-neighbour
+// guard in drawCell) then `+fz` (Fill stores width 0 for zero-width runes), each present when the tree under test has the repair.
+func drawVariantSuffix() string { return lockGuardSuffix() + fillZWSuffix() }
 
 func ecmaEntries() []string {
 	var out []string
@@ -514,7 +531,7 @@ func execDraw(line string) (res h.Result) {
 				if st.Bg == ColorNoneU {
 					st.Bg = c.style.Bg
 				}
-				*c = drawCell{m, comb, st}
+				*c = drawCell{m, comb, st, false}
 				touch(x, y)
 				if widthOf(m) > 1 {
 					tags["wide"] = true
@@ -534,7 +551,7 @@ func execDraw(line string) (res h.Result) {
 					if ns.Bg == ColorNoneU {
 						ns.Bg = c.style.Bg
 					}
-					*c = drawCell{r, nil, ns}
+					*c = drawCell{r, nil, ns, true}
 				}
 			}
 			markAllChanged()
@@ -718,12 +735,12 @@ func execDraw(line string) (res h.Result) {
 						continue
 					}
 					if strings.Contains(ec.flags, "g") || got != strings.Join(want, ",") || !penMatch(pen, ec.pen) {
-						addF("display-mismatch", "cell (%d,%d): terminal shows %s/%s/%s, application set rune %d comb %v style %s (want %s/%s)",
-							x, y, ec.runes, ec.pen, ec.flags, c.main, c.comb, c.style, strings.Join(want, ","), pen)
+						addF("display-mismatch", "cell (%d,%d): terminal shows %s/%s/%s, application set rune %d comb %v style %s (want %s/%s)%s",
+							x, y, ec.runes, ec.pen, ec.flags, c.main, c.comb, c.style, strings.Join(want, ","), pen, c.byFill())
 					}
 					// shown as a blank: the base glyph is a space (the cell's own zero-width combining marks may follow it)
 					if mustBeBlank(c.main) && strings.SplitN(got, ",", 2)[0] != "32" {
-						addF("payload-format-char-shown", "cell (%d,%d) holds U+%04X (control / bidi / invisible format character) as primary rune; the terminal shows %s instead of a blank", x, y, c.main, ec.runes)
+						addF("payload-format-char-shown", "cell (%d,%d) holds U+%04X (control / bidi / invisible format character) as primary rune; the terminal shows %s instead of a blank%s", x, y, c.main, ec.runes, c.byFill())
 					}
 					if wide && x+1 < sh.w && !sh.locked[[2]int{x + 1, y}] && !strings.Contains(cells[y*sh.w+x+1].flags, "c") {
 						addF("wide-not-two-columns", "cell (%d,%d) holds a wide rune but (%d,%d) is not its right half on the terminal", x, y, x+1, y)
@@ -795,7 +812,7 @@ func execDraw(line string) (res h.Result) {
 		res.Obs = "SKIP 8-bit locale: judged by the oracle only (the byte-level model is instantiated for UTF-8)"
 	}
 	if staleVariant {
-		res.Obs = "SKIP line recorded on a tree of the other locked-neighbour variant: judged by the oracle only"
+		res.Obs = "SKIP line recorded on a tree of another variant (locked-neighbour guard / Fill width): judged by the oracle only"
 	}
 	for t := range tags {
 		res.Tags = append(res.Tags, t)
@@ -947,7 +964,11 @@ func genDraw(g *h.Gen) {
 				}
 				ops = append(ops, fmt.Sprintf("S %d %d %d %s %s", x, y, m, h.ShowIntList(comb), drawStyle(r)))
 			case k < 49:
-				ops = append(ops, fmt.Sprintf("F %d %s", h.Pick(r, []int{' ', '.', 'x', 0x2500}), drawStyle(r)))
+				fr := h.Pick(r, []int{' ', '.', 'x', 0x2500})
+				if r.Chance(12) { // Fill is one more way to supply primary cell content (C09): controls, zero-width, format, invalid
+					fr = h.Pick(r, fillSpecial)
+				}
+				ops = append(ops, fmt.Sprintf("F %d %s", fr, drawStyle(r)))
 			case k < 52:
 				ops = append(ops, "Y "+drawStyle(r).String())
 			case k < 58:
@@ -1005,7 +1026,7 @@ func genDraw(g *h.Gen) {
 		}
 		ops = append(ops, fitOps(name, cols)...)
 		w0, h0 := r.Range(2, 7), r.Range(1, 4)
-		g.Emit("draw %s%s %d %d %d %s", name, lockGuardSuffix(), r.Intn(2), w0, h0, strings.Join(ops, "; "))
+		g.Emit("draw %s%s %d %d %d %s", name, drawVariantSuffix(), r.Intn(2), w0, h0, strings.Join(ops, "; "))
 	}
 }
 
@@ -1061,7 +1082,31 @@ func genDrawCP(g *h.Gen) {
 				ops = append(ops, fmt.Sprintf("S %d %d %d - 0,0,0,0,0,-,-", x, y, cps[i+k]))
 			}
 			ops = append(ops, "W")
-			g.Emit("draw %s 0 8 4 %s", tgt+lockGuardSuffix(), strings.Join(ops, "; "))
+			g.Emit("draw %s 0 8 4 %s", tgt+drawVariantSuffix(), strings.Join(ops, "; "))
+		}
+	}
+	// Fill as the supplier of primary content (CellBuffer.Fill gives every cell the rune with a width of its own choosing,
+	// cell.go:231): one rune per case on a 3x1 screen, UTF-8 and ISO8859-1; controls, DEL, C1, zero-width / format /
+	// combining runes, surrogates, non-characters, negative and out-of-range values
+	var fcps []int
+	if g.Thorough() {
+		for c := 0; c <= 0x10FFFF; c++ {
+			if c < 0x3000 || c%61 == 0 || mustBeBlank(c) || runewidth.RuneWidth(rune(c)) == 0 {
+				fcps = append(fcps, c)
+			}
+		}
+	} else {
+		for _, rg := range [][2]int{{0, 0x2ff}, {0x300, 0x36f}, {0x600, 0x61f}, {0x2000, 0x206f}, {0x20d0, 0x20ef}, {0xfe00, 0xfe0f}, {0xfff0, 0xffff}} {
+			for c := rg[0]; c <= rg[1]; c++ {
+				fcps = append(fcps, c)
+			}
+		}
+		fcps = append(fcps, 0x4e16, 0xd7ff, 0xd800, 0xdfff, 0xe000, 0xfeff, 0x1f600, 0xe0001, 0xe0020, 0xe007f, 0xe0100, 0x10ffff)
+	}
+	fcps = append(fcps, -1, -2, -0x80000000, 0x110000, 0x110001, 0x7fffffff)
+	for _, tgt := range []string{"xterm-256color", "xterm-256color@ISO8859-1"} {
+		for _, c := range fcps {
+			g.Emit("draw %s 0 3 1 F %d 0,0,0,0,0,-,-; W", tgt+drawVariantSuffix(), c)
 		}
 	}
 	// combining lists in UTF-8 and in 8-bit locales, including charmaps that answer an unencodable rune with the SUB
@@ -1104,7 +1149,7 @@ func genDrawCP(g *h.Gen) {
 
 func init() {
 	h.Register(&h.Engine{Name: "drawcp",
-		Rule: "every code point (quick: all below U+3000, every 61st above, boundary values; thorough: all 0x110000) and out-of-range rune values as primary cell content in the first, a middle and the last column; UTF-8 and ISO8859-1 locales; plus base x combining-mark cells in UTF-8 and five 8-bit charsets (SUB-answering and error-answering charmaps); 12 cells per case; every case is non-trivial",
+		Rule: "every code point (quick: all below U+3000, every 61st above, boundary values; thorough: all 0x110000) and out-of-range rune values as primary cell content in the first, a middle and the last column; UTF-8 and ISO8859-1 locales; the same through Fill, one rune per 3x1 screen (quick: all below U+0370, the format/control blocks, boundary and out-of-range values; thorough: all below U+3000, every zero-width or must-be-blank code point, every 61st); plus base x combining-mark cells in UTF-8 and five 8-bit charsets (SUB-answering and error-answering charmaps); 12 cells per case; every case is non-trivial",
 		Gen:  genDrawCP, Exec: execDraw})
 	h.Register(&h.Engine{Name: "draw",
 		Rule: "a fixed attribute/underline/colour/hyperlink matrix for every ECMA-family entry x direct colour on/off, then random draw histories (4-36 ops) on a real terminfo screen over a fake tty, every ECMA-family entry, direct colour on/off, sizes 2..7 x 1..4; distinct = distinct line; non-trivial = at least one in-range SetContent",
